@@ -217,7 +217,9 @@ func c03DepGraphRule(c *core.Ctx, rC03Graph string) {
 	c.Check(bad == "", rC03Graph, f.Name, f.Decl.Pos(), fmt.Sprintf("right edges on %d premise/transform combinations", n), bad)
 }
 
-func c03Stratify(c *core.Ctx) {
+func c03Stratify(c *core.Ctx) { c03StratifyRule(c, rC03Strat) }
+
+func c03StratifyRule(c *core.Ctx, rC03Strat string) {
 	f := c.MustFunc(rC03Strat, "analysis", "Stratify")
 	if f == nil {
 		return
